@@ -95,7 +95,7 @@ def run(ctx):
     for w in WITNESSES:
         wcfg = tlc.write_cfg(os.path.join(ctx.scratch, w + ".cfg"), constants=CONSTS, invariants=[w],
                              constraints=["Bounded"], deadlock=False)
-        wres = tlc.check_model("Reconnect", wcfg, ctx.scratch, timeout=600)
+        wres = tlc.check_model("Reconnect", wcfg, ctx.scratch, timeout=600, workers=4)
         if wres.invariant != w:
             raise tlc.MachineryError("vacuity witness %s not reachable" % w)
     ctx.note("vacuity_witnesses_reached", len(WITNESSES))
@@ -108,9 +108,11 @@ def run(ctx):
     for kind, params in tuples:
         modes = ["rng"] if kind == "constant" else (["low", "high"] + ["rng"] * n_rng)
         for mode in modes:
-            t, items = rr.record(kind, params, jitter=mode, rng=ctx.rng)
+            # quick tier: the forced-extreme jitter runs stop after 150 items (the band is constant from the cap on)
+            limit = 150 if (ctx.quick and mode != "rng") else rr.LIMIT
+            t, items = rr.record(kind, params, jitter=mode, rng=ctx.rng, limit=limit)
             traces.append(t)
-            meta.append({"kind": kind, "params": list(params), "jitter": mode, "items": len(items),
+            meta.append({"kind": kind, "params": list(params), "jitter": mode, "items": len(items), "limit": limit,
                          "ended": t[-1]["e"] == "Stop", "head": [repr(x) for x in items[:4]]})
             items_total += len(items)
     good = len(traces)
@@ -132,7 +134,7 @@ def run(ctx):
     bad2 = copy.deepcopy(traces[i_fin])
     bad2.insert(len(bad2) - 1, dict(bad2[-2]))
     bad3 = copy.deepcopy(traces[i_fin])
-    del bad3[2]
+    del bad3[-2]
     bad4 = copy.deepcopy(traces[i_unl])
     bad4[3]["dlo"] = bad4[3]["dhi"] = 169                    # index 2: raw 4 -> [340, 460]; 169 is index 0's band
     selftests = [(bad1, 1501), (bad2, len(bad2) - 1), (bad3, len(bad3)), (bad4, 4)]
@@ -153,11 +155,17 @@ def run(ctx):
     ctx.note("binding_selftest", {"out_of_band_rejected": 2, "extra_item_rejected": 1, "missing_item_rejected": 1})
 
     accepted = 0
+    seen = {}
+
+    def report(what, replay, signature):
+        seen[signature] = seen.get(signature, 0) + 1
+        if seen[signature] == 1:
+            ctx.violation(what, replay=replay, signature=signature)
     for i in range(good):
         t, m = traces[i], meta[i]
         ok = prog[i] == len(t) + 1
         # the end of the trace must coincide with Stop: a trace without Stop is complete only at the item limit
-        if ok and not m["ended"] and m["items"] < rr.LIMIT:
+        if ok and not m["ended"] and m["items"] < m["limit"]:
             ok = False
         if ok:
             accepted += 1
@@ -167,7 +175,7 @@ def run(ctx):
             continue
         pos = min(prog[i], len(t))
         reason = classify(t, pos) if prog[i] <= len(t) else "incomplete"
-        ctx.violation("%s schedule %r (jitter %s): item/event %d rejected by the specification (%s): %r; first items %s"
+        report("%s schedule %r (jitter %s): item/event %d rejected by the specification (%s): %r; first items %s"
                       % (m["kind"], m["params"], m["jitter"], pos - 1, reason, t[pos - 1], m["head"]),
                       replay={"kind": m["kind"], "params": m["params"], "jitter": m["jitter"], "rejected_event": pos,
                               "reason": reason},
@@ -191,11 +199,12 @@ def run(ctx):
         if out["attempts"] != n or out["truncated"]:
             bad = "extra-item" if (out["attempts"] > n or out["truncated"]) else "early-stop"
         if bad:
-            ctx.violation("%s policy %r: _ReconnectionHandler made %d attempts%s, max_attempts=%d"
+            report("%s policy %r: _ReconnectionHandler made %d attempts%s, max_attempts=%d"
                           % (kind, params, out["attempts"], " (and goes on)" if out["truncated"] else "", n),
                           replay={"kind": kind, "params": list(params), "jitter": "rng", "handler": True, "reason": bad},
                           signature="%s:attempts=%s:%s" % (kind, att_class(n), bad))
     ctx.note("handler_runs", handler_runs)
+    ctx.note("rejections_by_signature", seen)
     ctx.evaluations = items_total + handler_runs
     ctx.note("rule", "one trace per (policy, parameters, jitter mode); non-trivial = at least one attempt allowed and, for "
                      "the exponential policy, 0 < base < max (the curve actually doubles)")
